@@ -854,9 +854,13 @@ def Array(
         def _decode_all(cls, stream):
             _array = []
             while True:
+                _start = stream.tell()
                 try:
                     _array.append(cls.element_type.decode(stream))
-                except BufferEmptyError:
+                except BufferEmptyError as err:
+                    if stream.tell() != _start:
+                        # buffer ended inside an element, not between elements
+                        raise DataError("buffer ended before the last array element was complete") from err
                     break
             return _array
 
